@@ -1,5 +1,6 @@
 import PeliteModel.Spec.PatternSem
 import PeliteModel.Lemmas.Exec
+import PeliteModel.Lemmas.PeHdr
 /-!
 Lemmas for C11 (semantic half): the interpreter model `Exec.exec` run on the reference compiler's
 output computes the documented semantics `PatSem.sem`.
@@ -1701,5 +1702,326 @@ theorem alts_runs (hB : ∀ b, Atom.byte b ∈ U → b < 256) (hC : Coherent S) 
 end
 
 end Main5
+
+
+/-! ## (F) assembly -/
+
+/-- every `Byte` operand fits a byte -/
+def BytesOK (l : List Atom) : Prop := ∀ b, Atom.byte b ∈ l → b < 256
+
+theorem BytesOK.nil : BytesOK [] := by intro b h; cases h
+
+theorem BytesOK.append {x y : List Atom} (hx : BytesOK x) (hy : BytesOK y) : BytesOK (x ++ y) := by
+  intro b h
+  rcases List.mem_append.1 h with h | h
+  · exact hx b h
+  · exact hy b h
+
+theorem BytesOK.cons {a : Atom} {l : List Atom} (ha : ∀ b, a = .byte b → b < 256) (hl : BytesOK l) : BytesOK (a :: l) := by
+  intro b h
+  rcases List.mem_cons.1 h with h | h
+  · exact ha b h.symm
+  · exact hl b h
+
+theorem BytesOK.flush (pend : Option Nat) : BytesOK (flush pend) := by
+  cases pend with
+  | none => exact BytesOK.nil
+  | some n => exact BytesOK.cons (by intro b h; cases h) BytesOK.nil
+
+theorem BytesOK.rangext (n : Nat) : BytesOK (rangext n) := by
+  unfold PatSem.rangext
+  split
+  · exact BytesOK.cons (by intro b h; cases h) BytesOK.nil
+  · exact BytesOK.nil
+
+theorem BytesOK.simple {k : Nat} {it : Item} {a : Atom} {d : Nat} (h : simpleAtom k it = some a) (hwf : wfItem d it = true) :
+    ∀ b, a = .byte b → b < 256 := by
+  intro b hb
+  subst hb
+  cases it <;> simp only [simpleAtom, Option.some.injEq, reduceCtorEq] at h
+  case byte b0 => cases h; simpa [wfItem] using hwf
+  case jump j => cases j <;> simp [Jump.atom] at h
+  case readI w =>
+    unfold readAtom at h
+    split at h <;> cases h
+  case readU w =>
+    unfold readAtom at h
+    split at h <;> cases h
+
+mutual
+theorem comp_bytesOK : ∀ (items : List Item) (k d : Nat) (pend : Option Nat), wfItems d items = true →
+    BytesOK (comp k pend items)
+  | [], k, d, pend, _ => by simp only [comp]; exact BytesOK.flush _
+  | .ws s :: r, k, d, pend, h => by rw [comp]; exact comp_bytesOK r k d pend (wf_cons h).2
+  | .any :: r, k, d, pend, h => by
+    cases pend with
+    | none => rw [comp]; exact comp_bytesOK r k d _ (wf_cons h).2
+    | some n =>
+      rw [comp]
+      split
+      · exact comp_bytesOK r k d _ (wf_cons h).2
+      · exact BytesOK.cons (by intro b hb; cases hb) (comp_bytesOK r k d _ (wf_cons h).2)
+  | .skip n :: r, k, d, pend, h => by
+    rw [comp]
+    split
+    · exact comp_bytesOK r k d _ (wf_cons h).2
+    · exact ((BytesOK.flush _).append (BytesOK.rangext _)).append (comp_bytesOK r k d _ (wf_cons h).2)
+  | .range a b :: r, k, d, pend, h => by
+    rw [comp]
+    refine BytesOK.append (BytesOK.append ?_ (BytesOK.rangext _))
+      (BytesOK.cons (by intro b hb; cases hb) (comp_bytesOK r k d _ (wf_cons h).2))
+    split
+    · exact BytesOK.flush _
+    · exact ((BytesOK.flush _).append (BytesOK.rangext _)).append (BytesOK.cons (by intro b hb; cases hb) BytesOK.nil)
+  | .str bs :: r, k, d, pend, h => by
+    rw [comp]
+    split
+    · exact comp_bytesOK r k d _ (wf_cons h).2
+    · refine ((BytesOK.flush _).append ?_).append (comp_bytesOK r k d _ (wf_cons h).2)
+      intro b hb
+      obtain ⟨x, _, hx⟩ := List.mem_map.1 hb
+      cases hx
+      exact x.toNat_lt
+  | .byte b :: r, k, d, pend, h => by
+    rw [comp_simple (it := .byte b) rfl]
+    exact ((BytesOK.flush _).append (BytesOK.cons (BytesOK.simple (it := .byte b) (k := k) rfl (wf_cons h).1) BytesOK.nil)).append
+      (comp_bytesOK r _ d _ (wf_cons h).2)
+  | .jump j :: r, k, d, pend, h => by
+    rw [comp_simple (it := .jump j) rfl]
+    exact ((BytesOK.flush _).append (BytesOK.cons (BytesOK.simple (it := .jump j) (k := k) rfl (wf_cons h).1) BytesOK.nil)).append
+      (comp_bytesOK r _ d _ (wf_cons h).2)
+  | .save :: r, k, d, pend, h => by
+    rw [comp_simple (it := .save) rfl]
+    exact ((BytesOK.flush _).append (BytesOK.cons (BytesOK.simple (it := .save) (k := k) rfl (wf_cons h).1) BytesOK.nil)).append
+      (comp_bytesOK r _ d _ (wf_cons h).2)
+  | .aligned n :: r, k, d, pend, h => by
+    rw [comp_simple (it := .aligned n) rfl]
+    exact ((BytesOK.flush _).append (BytesOK.cons (BytesOK.simple (it := .aligned n) (k := k) rfl (wf_cons h).1) BytesOK.nil)).append
+      (comp_bytesOK r _ d _ (wf_cons h).2)
+  | .readI w :: r, k, d, pend, h => by
+    rw [comp_simple (it := .readI w) rfl]
+    exact ((BytesOK.flush _).append (BytesOK.cons (BytesOK.simple (it := .readI w) (k := k) rfl (wf_cons h).1) BytesOK.nil)).append
+      (comp_bytesOK r _ d _ (wf_cons h).2)
+  | .readU w :: r, k, d, pend, h => by
+    rw [comp_simple (it := .readU w) rfl]
+    exact ((BytesOK.flush _).append (BytesOK.cons (BytesOK.simple (it := .readU w) (k := k) rfl (wf_cons h).1) BytesOK.nil)).append
+      (comp_bytesOK r _ d _ (wf_cons h).2)
+  | .zero :: r, k, d, pend, h => by
+    rw [comp_simple (it := .zero) rfl]
+    exact ((BytesOK.flush _).append (BytesOK.cons (BytesOK.simple (it := .zero) (k := k) rfl (wf_cons h).1) BytesOK.nil)).append
+      (comp_bytesOK r _ d _ (wf_cons h).2)
+  | .group j gap body :: r, k, d, pend, h => by
+    rw [comp]
+    have hb : wfItems (d + 1) body = true := by
+      have := (wf_cons h).1
+      simp [wfItem] at this; exact this.2
+    refine (BytesOK.flush _).append (BytesOK.cons (by intro b hb; cases hb) (BytesOK.cons ?_ ?_))
+    · intro b hb; cases j <;> simp [Jump.atom] at hb
+    · exact (comp_bytesOK body k (d + 1) none hb).append
+        (BytesOK.cons (by intro b hb; cases hb) (comp_bytesOK r _ d _ (wf_cons h).2))
+  | .alt bodies :: r, k, d, pend, h => by
+    rw [comp]
+    have hb : wfAlts d bodies = true := by
+      have := (wf_cons h).1
+      simp [wfItem] at this; exact this.2
+    exact ((BytesOK.flush _).append (compAlts_bytesOK bodies k d hb)).append (comp_bytesOK r _ d _ (wf_cons h).2)
+theorem compAlts_bytesOK : ∀ (bodies : List (List Item)) (k d : Nat), wfAlts d bodies = true → BytesOK (compAlts k bodies)
+  | [], k, d, _ => by simp only [compAlts]; exact BytesOK.nil
+  | [b], k, d, h => by
+    simp only [compAlts]
+    exact BytesOK.cons (by intro b hb; cases hb) (comp_bytesOK b k d none (by simpa [wfAlts] using h))
+  | b :: b' :: bs, k, d, h => by
+    have hw : wfItems d b = true ∧ wfAlts d (b' :: bs) = true := by simpa [wfAlts] using h
+    rw [compAlts]
+    · exact BytesOK.cons (by intro b hb; cases hb) ((comp_bytesOK b k d none hw.1).append
+        (BytesOK.cons (by intro b hb; cases hb) (compAlts_bytesOK (b' :: bs) k d hw.2)))
+    · intro h; cases h
+end
+
+theorem trim_split (l : List Atom) : l = trimEnd l ++ trimmedTail l := by
+  unfold trimEnd trimmedTail
+  rw [← List.reverse_append, List.takeWhile_append_dropWhile, List.reverse_reverse]
+
+theorem trimmedTail_redundant (l : List Atom) : ∀ a ∈ trimmedTail l, redundant a = true := by
+  intro a ha
+  unfold trimmedTail at ha
+  rw [List.mem_reverse] at ha
+  exact List.all_eq_true.1 List.all_takeWhile a ha
+
+theorem inert_of_redundant {a : Atom} (h : redundant a = true) (hm : isMany a = false) : inert a = true := by
+  cases a <;> simp_all [redundant, isMany, inert]
+
+/-- in the fragment the trimmed atoms are inert -/
+theorem trimmedTail_inert {p : Pat} (h : InFragment p = true) : ∀ a ∈ trimmedTail (compileRaw p), inert a = true := by
+  intro a ha
+  simp only [InFragment, Bool.and_eq_true, Bool.not_eq_true', List.any_eq_false] at h
+  exact inert_of_redundant (trimmedTail_redundant _ a ha) (by simpa using h.2 a ha)
+
+/-- **T2 before trimming**: `Scanner::exec` on the untrimmed code computes the documented semantics -/
+theorem run_compileRaw {S : ScanI} (hS : S.WF) (hC : Coherent S) (p : Pat) (hwf : WF p = true)
+    (hcl : closedLast p = true) (c : Nat) (hc : c < 4294967296) (save0 : Array Nat) :
+    ∃ save, run S (compileRaw p) c save0 = .ok ((denote S p c).isSome, save) ∧ save.size = save0.size ∧
+      ∀ c' w, denote S p c = some (c', w) → ∀ s v, (s, v) ∈ w → s < save0.size → save[s]? = some v := by
+  simp only [WF, Bool.and_eq_true, decide_eq_true_eq] at hwf
+  obtain ⟨⟨hwf1, _⟩, _⟩ := hwf
+  let U := compileRaw p
+  have hU : U = .save 0 :: comp 1 none p := rfl
+  have hB : ∀ b, Atom.byte b ∈ U → b < 256 :=
+    BytesOK.cons (by intro b hb; cases hb) (comp_bytesOK p 1 0 none hwf1)
+  have hA : At U 1 (comp 1 none p) := by
+    intro i a ha
+    rw [hU, Nat.add_comm, List.getElem?_cons_succ]; exact ha
+  have hlen : U.length = 1 + (comp 1 none p).length := by rw [hU]; simp only [List.length_cons]; omega
+  have hrun := comp_runs hS hB hC p 1 0 none 0 1 c (saveSet save0 0 c) U.length hwf1 hcl hA rfl hc
+    (Or.inr ((IsTerm.end_ hS (Nat.le_refl _)).cast hlen))
+  have h0 : execT S U ⟨0, c, save0⟩ 0xff 0 = execT S U ⟨1, c, saveSet save0 0 c⟩ 0xff 0 :=
+    execT_step_some hS (st := ⟨0, c, save0⟩) (a := .save 0) (by rw [hU]; rfl) rfl rfl
+  have hex : exec S U (fuelFor U) ⟨0, c, save0⟩ 0xff 0 = .ok (execT S U ⟨0, c, save0⟩ 0xff 0) :=
+    exec_eq_execT hS (by simp [fuelFor]) (by simp [fuelFor])
+  have hrunU : run S U c save0 = .ok ((execT S U ⟨0, c, save0⟩ 0xff 0).1, (execT S U ⟨0, c, save0⟩ 0xff 0).2.save) := by
+    simp only [run, hex]
+  rw [show run S (compileRaw p) c save0 = run S U c save0 from rfl, hrunU, h0]
+  simp only [cur] at hrun
+  simp only [denote]
+  cases hs : sem S 1 p c with
+  | none =>
+    rw [hs] at hrun
+    obtain ⟨st', he, hok⟩ := hrun
+    refine ⟨st'.save, by rw [he]; rfl, ?_, ?_⟩
+    · rw [hok.1]; simp [saveSet]
+    · intro c' w h; simp at h
+  | some x =>
+    obtain ⟨c', w⟩ := x
+    rw [hs] at hrun
+    obtain ⟨sv', he, hok, hw, _⟩ := hrun
+    rw [← hlen, IsTerm.end_ hS (Nat.le_refl _) c' sv'] at he
+    refine ⟨sv', by rw [he]; rfl, ?_, ?_⟩
+    · rw [hok.1]; simp [saveSet]
+    · intro c'' w'' h s v hm hsz
+      simp only [Option.map_some, Option.some.injEq, Prod.mk.injEq] at h
+      obtain ⟨_, rfl⟩ := h
+      have hsz' : s < sv'.size := by rw [hok.1]; simpa [saveSet] using hsz
+      rcases List.mem_append.1 hm with h1 | h1
+      · exact hw s v h1 hsz'
+      · simp only [List.mem_singleton, Prod.mk.injEq] at h1
+        obtain ⟨rfl, rfl⟩ := h1
+        rw [hok.2 0 (by omega)]
+        simp only [saveSet]
+        simp [hsz]
+
+/-- **T2**: `Scanner::exec` on the reference compiler's output computes the documented semantics, for every
+well-formed pattern of the fragment, every image interface that is well behaved (`WF`) and coherent —
+hence for both pointer widths and both kinds of views — every cursor and every save array. -/
+theorem run_compile {S : ScanI} (hS : S.WF) (hC : Coherent S) (p : Pat) (hwf : WF p = true)
+    (hfr : InFragment p = true) (c : Nat) (hc : c < 4294967296) (save0 : Array Nat) :
+    ∃ save, run S (compile p) c save0 = .ok ((denote S p c).isSome, save) ∧ save.size = save0.size ∧
+      ∀ c' w, denote S p c = some (c', w) → ∀ s v, (s, v) ∈ w → s < save0.size → save[s]? = some v := by
+  have hcl : closedLast p = true := by
+    simp only [InFragment, Bool.and_eq_true] at hfr; exact hfr.1
+  have := run_trim hS (compile p) (trimmedTail (compileRaw p)) (trimmedTail_inert hfr) c save0
+  rw [show compile p = trimEnd (compileRaw p) from rfl, ← trim_split] at this
+  rw [show compile p = trimEnd (compileRaw p) from rfl, this]
+  exact run_compileRaw hS hC p hwf hcl c hc save0
+
+
+/-! ## (G) the image interfaces are coherent -/
+
+/-- the raw buffer interface (`impl Scan for &[u8]`) -/
+theorem coherent_ofRaw (f : Pe.Fmt) (b : Bytes) (hb : b.size < 4294967296) : Coherent (ofRaw f b) := by
+  intro c off len i hs hi
+  simp only [ofRaw] at hs ⊢
+  split at hs
+  · next hle =>
+    simp only [Option.some.injEq, Prod.mk.injEq] at hs
+    obtain ⟨rfl, rfl⟩ := hs
+    have hw : wadd32 c i = c + i := by unfold wadd32; omega
+    rw [hw]
+    have : c + i + 1 ≤ b.size := by omega
+    simp only [this, if_true, leN]
+  · cases hs
+
+open Pelite.Pe in
+/-- mapped images (`PeView`): `slice_bytes` and `derva_copy` both index the mapped image by rva -/
+theorem coherent_ofView_view (v : Pe.View) (hk : v.kind = .view) (hsz : v.b.size < 4294967296) :
+    Coherent (ofView v) := by
+  intro c off len i hs hi
+  have hb : v.b = v.img.bytes := rfl
+  have hsz' : v.img.bytes.size < 4294967296 := hsz
+  have hp : ∀ x, alignedTo "slice_section:aligned_to" (v.img.base + x) 1 = .ok true := by
+    intro x; simp [alignedTo_eq, Nat.mod_one]; decide
+  simp only [ofView, View.slice, hk, sliceSection] at hs ⊢
+  by_cases h0 : c = 0
+  · simp [h0] at hs
+  · simp only [h0, if_false, hp] at hs
+    split at hs
+    · next r hr =>
+      split at hr
+      · next hc =>
+        simp only [Out.ok.injEq] at hr
+        subst hr
+        simp only [Option.some.injEq, Prod.mk.injEq] at hs
+        obtain ⟨rfl, rfl⟩ := hs
+        have hw : wadd32 c i = c + i := by unfold wadd32; omega
+        have h1 : ¬ (c + i = 0) := by omega
+        have h2 : c + i ≤ v.img.bytes.size ∧ v.img.bytes.size - (c + i) ≥ 1 := by omega
+        simp only [hw, h1, if_false, hp, h2, and_self, if_true, leN, hb]
+      · cases hr
+    · cases hs
+
+/-- no rva lies in the virtual extent of two sections -/
+def SecsDisjoint (secs : List Pe.Sec) : Prop :=
+  ∀ s ∈ secs, ∀ t ∈ secs, ∀ x, s.containsRva x = true → t.containsRva x = true → s = t
+
+open Pelite.Pe in
+theorem firstV_unique {secs : List Sec} {s : Sec} {x : Nat} (hd : SecsDisjoint secs) (hm : s ∈ secs)
+    (hc : s.containsRva x = true) : firstV secs x = some s := by
+  cases hf : firstV secs x with
+  | none =>
+    unfold firstV at hf
+    have := List.find?_eq_none.1 hf s hm
+    simp [hc] at this
+  | some t =>
+    obtain ⟨ht1, ht2⟩ := firstV_some hf
+    rw [hd t ht1 s hm x ht2 hc]
+
+open Pelite.Pe in
+/-- file images (`PeFile`) whose sections do not overlap: both `slice_bytes` and `derva_copy` resolve
+the rva through the one section that contains it -/
+theorem coherent_ofView_file (v : Pe.View) (hk : v.kind = .file) (hd : SecsDisjoint v.secs) : Coherent (ofView v) := by
+  intro c off len i hs hi
+  have hin : ∀ s ∈ v.secs, s.InRange := sections_in_range v.b
+  simp only [ofView, View.slice, hk] at hs ⊢
+  split at hs
+  · next r hr =>
+    simp only [Option.some.injEq, Prod.mk.injEq] at hs
+    obtain ⟨rfl, rfl⟩ := hs
+    obtain ⟨h0, _, _, o, l, hrf, _, rfl⟩ := (sliceFile_ok_iff_range _ _ _ _ _ _).1 hr
+    rw [rangeFile_eq] at hrf
+    cases hf : firstV v.secs c with
+    | none => simp [hf] at hrf
+    | some s =>
+      simp only [hf] at hrf
+      obtain ⟨hsm, hsc⟩ := firstV_some hf
+      have hsr := hin s hsm
+      obtain ⟨q1, q2, q3, _, rfl, rfl⟩ := (rangeOne_ok_iff hsr _ _ _ _ _).1 hrf
+      obtain ⟨n1, n2, n3⟩ := containsRva_nowrap hsr hsc
+      simp only at hi
+      have hw : wadd32 c i = c + i := by unfold wadd32; omega
+      have hsc' : s.containsRva (c + i) = true := by
+        rw [containsRva_iff]
+        have : wadd32 s.va (max s.vs s.rs) = s.va + max s.vs s.rs := by unfold wadd32; omega
+        rw [this]; omega
+      have hf' := firstV_unique hd hsm hsc'
+      have hr1 : rangeOne v.img.bytes.size s (c + i) 1 = .ok (s.prd + (c - s.va) + i, s.rs - (c + i - s.va)) := by
+        rw [rangeOne_ok_iff hsr]
+        refine ⟨q1, q2, by omega, by omega, by omega, rfl⟩
+      have hsl : sliceFile v.img v.secs (c + i) 1 1 = .ok ⟨s.prd + (c - s.va) + i, s.rs - (c + i - s.va), 1⟩ := by
+        rw [sliceFile_ok_iff_range]
+        refine ⟨by omega, by decide, Nat.mod_one _, _, _, ?_, Nat.mod_one _, rfl⟩
+        rw [rangeFile_eq, hf']
+        exact hr1
+      rw [hw, hsl]
+      simp only [leN]
+  · cases hs
 
 end Pelite.PatSem
